@@ -172,7 +172,10 @@ impl G<'_> {
                 match self.rng.below(5) {
                     0 | 1 => self.lines.push(format!("trap 'echo got-{sig} st=$?' {sig}; kill -s {sig} $$; echo after-{sig}")),
                     2 => self.lines.push(format!("trap '' {sig}; kill -s {sig} $$; echo survived-{sig}")),
-                    3 => self.lines.push(format!("trap - {sig}")),
+                    3 if self.rng.chance(50) => self.lines.push(format!("trap - {sig}")),
+                    // the signal arrives from a command substitution while the shell waits for it, and a
+                    // second process is forked before the trap can run
+                    3 => self.lines.push(format!("trap 'echo got-{sig}' {sig}; x=$(kill -s {sig} $$)$(echo second); echo \"x=$x st=$?\"")),
                     _ => self.lines.push(format!("trap 'echo got-{sig}; trap \"echo again-{sig}\" {sig}' {sig}; kill -s {sig} $$; kill -s {sig} $$; (trap -p {sig}; echo in-sub); echo \"st=$?\"")),
                 }
                 self.features.push("signals");
@@ -393,6 +396,10 @@ fn run_real(script: &str, dir: &Path, valgrind: bool) -> Result<Obs, String> {
         .stdin(std::process::Stdio::null())
         .stdout(std::process::Stdio::piped())
         .stderr(std::process::Stdio::piped());
+    {
+        use std::os::unix::process::CommandExt;
+        cmd.process_group(0);
+    }
     let mut child = cmd.spawn().map_err(|e| e.to_string())?;
     // generous wall-clock watchdog; expiry is inconclusive, not a verdict
     let start = std::time::Instant::now();
@@ -415,9 +422,16 @@ fn run_real(script: &str, dir: &Path, valgrind: bool) -> Result<Obs, String> {
             Ok(Some(s)) => break s,
             Ok(None) => {
                 if start.elapsed().as_secs() > limit {
+                    // slow (loaded machine) or blocked for ever? A process tree that has used almost
+                    // no CPU during the whole limit and is not runnable is blocked
+                    let cpu = tree_cpu_ticks(child.id());
+                    let _ = unsafe { libc::kill(-(child.id() as i32), libc::SIGKILL) };
                     let _ = child.kill();
                     let _ = child.wait();
-                    return Err("real-system run exceeded the wall-clock watchdog".into());
+                    return Err(match cpu {
+                        Some(t) if t < 100 => format!("BLOCKED: the real-system run was still alive after {limit} s having used {t} clock ticks of CPU"),
+                        _ => "real-system run exceeded the wall-clock watchdog".into(),
+                    });
                 }
                 std::thread::sleep(std::time::Duration::from_millis(2));
             }
@@ -451,6 +465,26 @@ fn run_real(script: &str, dir: &Path, valgrind: bool) -> Result<Obs, String> {
             o
         }
     })
+}
+
+/// CPU time (utime+stime, clock ticks) used so far by the processes of the process group `pgid`
+fn tree_cpu_ticks(pgid: u32) -> Option<u64> {
+    let mut total = 0u64;
+    let mut seen = false;
+    for e in std::fs::read_dir("/proc").ok()?.flatten() {
+        let name = e.file_name();
+        let Some(pid) = name.to_str().and_then(|s| s.parse::<u32>().ok()) else { continue };
+        let Ok(stat) = std::fs::read_to_string(format!("/proc/{pid}/stat")) else { continue };
+        // fields after the parenthesised command name
+        let Some(rest) = stat.rsplit_once(") ").map(|x| x.1) else { continue };
+        let f: Vec<&str> = rest.split(' ').collect();
+        // rest[0]=state [1]=ppid [2]=pgrp ... [11]=utime [12]=stime
+        if f.len() > 12 && f[2].parse::<u32>().ok() == Some(pgid) {
+            seen = true;
+            total += f[11].parse::<u64>().unwrap_or(0) + f[12].parse::<u64>().unwrap_or(0);
+        }
+    }
+    seen.then_some(total)
 }
 
 fn run_virtual(script: &str, dir: &Path) -> (Obs, String) {
@@ -592,6 +626,21 @@ pub fn run(ctx: &Ctx) {
             }
             let real = match run_real(&script, &dir, false) {
                 Ok(o) => o,
+                Err(e) if e.starts_with("BLOCKED") => {
+                    let _ = std::fs::remove_dir_all(&outer);
+                    // does the simulated run finish? then the two systems differ
+                    let (virt, _) = run_virtual(&script, &dir);
+                    ctx.eval();
+                    if virt.status.starts_with("exit:") || virt.status.starts_with("signal:") {
+                        ctx.violation(
+                            "diverge:real-run-blocks-forever",
+                            format!("script #{i}: {e}; the run on the simulated system ends with {}\n--- script:\n{script}", virt.status),
+                        );
+                    } else {
+                        ctx.inconclusive.fetch_add(1, std::sync::atomic::Ordering::Relaxed);
+                    }
+                    return;
+                }
                 Err(e) => {
                     ctx.inconclusive.fetch_add(1, std::sync::atomic::Ordering::Relaxed);
                     ctx.count(&format!("inconclusive({})", e.chars().take(40).collect::<String>()), 1);
